@@ -3,7 +3,7 @@ from props import tu, run, FCO, NONULL
 SRC = "harness/c04_pixel_algorithms.cpp"
 DEPS = ["harness/c04_kinds.hpp"]
 # (family, number of source parts) -- harness/c04_pixel_algorithms.cpp, "families"
-FAMS = [(0, 12), (1, 4), (2, 2), (3, 6), (4, 5), (5, 6), (6, 5), (100, 2)]
+FAMS = [(0, 12), (1, 4), (2, 2), (3, 6), (4, 5), (5, 6), (6, 5), (7, 4), (8, 6), (9, 6), (100, 3)]
 PARTS = [(f, p) for f, n in FAMS for p in range(n)]
 # cases per binary (one per (source variant, destination variant) + one per single-view variant); same in both tiers
 CASES = {
@@ -15,7 +15,10 @@ CASES = {
     (4, 0): 264, (4, 1): 120, (4, 2): 72, (4, 3): 96, (4, 4): 264,
     (5, 0): 352, (5, 1): 160, (5, 2): 352, (5, 3): 128, (5, 4): 96, (5, 5): 352,
     (6, 0): 136, (6, 1): 170, (6, 2): 308, (6, 3): 140, (6, 4): 140,
-    (100, 0): 96, (100, 1): 64,
+    (7, 0): 56, (7, 1): 56, (7, 2): 70, (7, 3): 56,
+    (8, 0): 72, (8, 1): 72, (8, 2): 90, (8, 3): 72, (8, 4): 72, (8, 5): 54,
+    (9, 0): 68, (9, 1): 68, (9, 2): 85, (9, 3): 51, (9, 4): 68, (9, 5): 85,
+    (100, 0): 96, (100, 1): 64, (100, 2): 80,
 }
 
 
@@ -31,10 +34,10 @@ CFG = dict(
     level="exploration",
     level_text=("Runs the real copy_pixels, copy_and_convert_pixels (compatible and converting), fill_pixels, equal_pixels, "
                 "for_each_pixel(_position), generate_pixels, transform_pixels and transform_pixel_positions (1 and 2 sources) and image "
-                "==/!= on every ordered pair of 38 view types x their run-time variants (contiguous, padded rows, interior sub-view, "
+                "==/!= on every ordered pair of 54 view types x their run-time variants (contiguous, padded rows, interior sub-view, "
                 "flipped up-down / left-right, x-stepped by 1 and 2, xy-stepped, rotated 90/180, transposed, rgb<->bgr twins, planar, "
                 "packed 565/123/gray1, bit-aligned 565/123/gray1 with bit strides that are not byte multiples and sub-views starting at "
-                "every bit offset, const views, color_converted_view sources) inside seven families of compatible pixels, for every shape "
+                "every bit offset, const views, color_converted_view sources) inside ten families of compatible pixels (2-, 3-, 4- and 5-channel planar kinds), for every shape "
                 "w,h in 0..N plus long/narrow shapes. Each algorithm writes into arena A, the obvious `for y for x` loop into the "
                 "byte-identical twin arena B; A and B are compared whole, every bit of A outside the destination pixels' own bits "
                 "(identity mask from the view, not from the loop) must keep its value, and the source arenas must not change. "
@@ -60,10 +63,13 @@ CFG = dict(
            "gray1: bit_aligned (+const), step, transposed; packed_pixel<uint8,1 bit>",
            "rgb123: bit_aligned rgb123 (+const), step, transposed, bgr321 twin; packed_pixel<uint8,1-2-3>",
            "converting: rgb8 ptr | rgb8 planar step | ba rgb123 | packed565 | gray8  ->  gray8 | rgb16 planar | packed565 | ba gray1 | rgb8 step | ba rgb123",
-           "image ==: rgb8 il/planar, bgr8, rgb16 il/planar, packed565, ba rgb565, ba gray1, ba rgb123 with alignments {0,1,4,16}"],
+           "dev2x8 (devicen<2>): interleaved, planar (+const), planar step; rgba8: interleaved, planar (+const), planar step, planar transposed, bgra8 twin; dev5x8 (devicen<5>): interleaved, interleaved step, planar (+const), planar step, planar transposed",
+           "caller-supplied objects with run-time state: colour converter (copy_and_convert_pixels(src,dst,cc), color_converted_view(src,cc) as a source kind), transform / for_each functors (salt), generator (seed)",
+           "image ==: rgb8 il/planar, bgr8, rgb16 il/planar, packed565, ba rgb565, ba gray1, ba rgb123, dev5x8 il/planar, rgba8 planar, bgra8, dev2x8 planar with alignments {0,1,4,16}"],
     assumptions=["the unused bits of a packed_pixel's bit field belong to the pixel (assigning a packed pixel copies the bit field); a difference between A and B confined to such bits is recorded as an observation, not a violation",
                  "second source of the 2-source transforms is of the destination's kind",
-                 "planar kinds use three planes (rgb) inside one arena",
+                 "the reference loop reads memory-based sources through view(x,y) (locator arithmetic, not the iterator dereference the algorithms use) and converting sources by converting the underlying pixel with the harness's own converter object",
+                 "planar kinds use 2, 3, 4 or 5 planes inside one arena, built from a hand-made planar_pixel_iterator",
                  "equal dimensions for all binary algorithms (the API's precondition); BOOST_ASSERTs are off (NDEBUG)",
                  "float channels: +0.0f vs -0.0f is the only non-bitwise-equal pair tried; NaN is outside the channel range",
                  "ASan build is -O0 (compile time); optimised code is exercised by the native -O2 build in the thorough tier only"],
@@ -79,7 +85,7 @@ CFG = dict(
         "copy.rgb8-planar>rgb8-planar.s1d1", "copy.rgb8-planar>rgb8-planar.s0d0", "copy.rgb16-planar-const>rgb16-planar.s1d1",
         # generic element-wise paths, step iterators that are 1-D traversable, layout twins, converted sources
         "copy.rgb8-ptr-step>rgb8-ptr.s1d1", "copy.rgb8-ptr>rgb8-planar-step.s1d0", "copy.bgr8-ptr>rgb8-ptr.s1d1", "copy.rgb8-planar>rgb8-ptr-transp.s1d0",
-        "copy.cc-rgb8(gray16-ptr)>rgb8-ptr.s1d1", "copy.cc-rgb8(rgb16-planar)>rgb8-planar.s0d0",
+        "copy.cc-rgb8(gray16-ptr)>rgb8-ptr.s1d1", "copy.ccs-rgb8(rgb16-planar)>rgb8-planar.s0d0",
         # memcmp fast paths seen by the sanitizer's memcmp hook; the generic path for const-vs-mutable
         "equal.rgb8-ptr>rgb8-ptr.s1d1.memcmp", "equal.rgb8-ptr>rgb8-ptr.s0d0.memcmp", "equal.rgb8-ptr>rgb8-ptr.s1d0.memcmp",
         "equal.rgb8-planar>rgb8-planar.s1d1.memcmp", "equal.rgb16-planar>rgb16-planar.s0d0.memcmp", "equal.rgb16-planar>rgb16-planar.s1d1.memcmp",
@@ -95,6 +101,16 @@ CFG = dict(
         # converting
         "copy_and_convert.rgb8-ptr>gray8-ptr.s1d1", "copy_and_convert.ba-rgb123>rgb16-planar.s0d0", "copy_and_convert.packed565-ptr>ba-gray1.s1d1",
         "copy_and_convert.gray8-ptr>rgb8-ptr-step.s1d0",
+        # 2-, 4- and 5-channel planar kinds (each colour-base arity has its own iterator dereference)
+        "copy.dev5x8-planar>dev5x8-ptr.s1d1", "copy.dev5x8-ptr>dev5x8-planar.s0d0", "copy.dev5x8-planar>dev5x8-planar.s1d1", "copy.dev5x8-planar-step>dev5x8-ptr.s0d1",
+        "equal.dev5x8-planar>dev5x8-ptr.s1d1", "equal.dev5x8-planar>dev5x8-planar.s1d1.memcmp", "fill.dev5x8-planar.d1", "fill.dev5x8-planar-step.d0",
+        "for_each.dev5x8-planar.d1", "for_each.dev5x8-planar.d0", "generate.dev5x8-planar.d1", "transform1.dev5x8-planar>dev5x8-ptr.s1d1", "transform_pos1.dev5x8-planar-transp>dev5x8-planar.s0d1",
+        "copy.rgba8-planar>rgba8-ptr.s1d1", "copy.bgra8-ptr>rgba8-planar.s1d0", "equal.rgba8-planar>bgra8-ptr.s1d1", "for_each.rgba8-planar.d1", "generate.rgba8-planar-step.d0",
+        "copy.dev2x8-planar>dev2x8-ptr.s1d1", "equal.dev2x8-planar>dev2x8-planar.s0d0.memcmp", "for_each.dev2x8-planar.d0", "fill.dev2x8-planar-step.d1",
+        "image-eq.dev5x8-planar>dev5x8-planar.memcmp", "image-eq.dev5x8-planar>dev5x8.s1d1", "image-eq.bgra8>rgba8-planar.s0d0", "image-eq.dev2x8-planar>dev2x8-planar.s1d0",
+        # caller-supplied stateful converter: converting branch and the compatible (plain copy) branch; stateful converted-view source
+        "copy_and_convert_cc.rgb8-ptr>gray8-ptr.s1d1", "copy_and_convert_cc.ba-rgb123>rgb16-planar.s0d0", "copy_and_convert_cc.gray8-ptr>rgb8-ptr-step.s1d0", "copy_and_convert_cc.rgb8-ptr>rgb8-ptr.s1d1",
+        "copy.ccs-rgb8(rgb16-planar)>rgb8-ptr.s1d1", "equal.ccs-rgb8(rgb16-planar)>rgb8-planar.s0d1", "transform1.ccs-rgb8(rgb16-planar)>rgb8-ptr-step.s1d0", "for_each.ccs-rgb8(rgb16-planar).d1",
         # functor algorithms
         "transform1.rgb8-ptr>rgb8-planar.s1d1", "transform2.rgb8-planar-step>rgb8-ptr.s0d0", "transform_pos1.ba-gray1>ba-gray1.s1d1", "transform_pos2.rgb16-planar>rgb16-ptr.s1d1",
         "for_each.rgb8-ptr.d1", "for_each.rgb8-ptr.d0", "for_each.rgb8-ptr-const.d1", "for_each_pos.cc-rgb8(gray16-ptr).d0", "generate.rgb8-planar.d1", "generate.ba-rgb123.d0",
